@@ -7,7 +7,7 @@ CONSTANTS
   KVals <- K3
   Orders <- OrdAll
   FullOrder = FALSE
-  Points <- Pts2
+  Points <- Pts1
   Feeds <- NoFeeds
   PhaseMaps <- Ph1
   ReKVals <- NoReK
